@@ -31,6 +31,9 @@ def gen_header(rng):
         else:
             out += b'--' + text + b'\r\n'
         out += rng.choice([b'', b'', b'\n', b' ', b'\n  \n'])
+    if rng.random() < 0.3:
+        # a file with DOS line ends throughout: every line end of the header (also of blank lines and after block comments) is CRLF
+        out = bytearray(bytes(out).replace(b'\r\n', b'\n').replace(b'\n', b'\r\n'))
     return bytes(out), n
 
 
@@ -104,7 +107,8 @@ def run(ctx, res):
         if len(lead) >= 1 and src.startswith(lead[0]):
             ti, bi = title_byline([src])
             to, bo = title_byline([out])
-            if ti != to or (len(lead) >= 2 and a[2][0] == 'comment' and bi != bo):
+            # (stats takes the byline from token 2: that is the second leading comment only in the form comment NEWLINE comment)
+            if ti != to or (len(lead) >= 2 and len(a) > 2 and a[1][0] == 'newline' and a[2][0] == 'comment' and bi != bo):
                 res.fail(key, 'title/byline derived by stats changed: %r/%r -> %r/%r' % (ti, bi, to, bo), inp)
 
 
